@@ -18,6 +18,7 @@
 EXTENDS Integers, Sequences, FiniteSets, TLC
 
 CONSTANTS StepKinds,   \* statement-level steps: "q", "upd", "ins", "del", "ups", "dup", "ddl", "multi", "prep", "prepq", "updw", "qfu", "drop" (the server drops idle connections)
+          EndKinds,    \* how a local transaction ends: "commit", "rollback", "commitf" (the database fails the COMMIT and rolls back)
           MaxSteps,
           Gtx,         \* subset of BOOLEAN: run inside a global transaction?
           Lits         \* subset of BOOLEAN: literal values instead of bound parameters
@@ -37,7 +38,7 @@ Begin(opt) ==
   /\ UNCHANGED <<gtx, lit, done>>
 
 EndTx(how) ==
-  /\ ~done /\ intx /\ how \in {"commit", "rollback"}
+  /\ ~done /\ intx /\ how \in EndKinds
   /\ intx' = FALSE /\ prog' = Append(prog, how)
   /\ UNCHANGED <<gtx, lit, nsteps, done>>
 
@@ -66,7 +67,7 @@ Finish(sameData, sameJournal, appInOrder, extrasOK, tcreq) ==
 
 Next ==
   \/ \E o \in {"begin", "beginro", "beginser"} : Begin(o)
-  \/ \E h \in {"commit", "rollback"} : EndTx(h)
+  \/ \E h \in EndKinds : EndTx(h)
   \/ \E k \in StepKinds : Step(k, TRUE, TRUE)
   \/ Finish(TRUE, TRUE, TRUE, TRUE, 0)
 
